@@ -206,17 +206,19 @@ func newIdentity(name string) *identity {
 
 // ---- a connection to the accessory: plain HTTP until verified, framed afterwards ----
 type ctlConn struct {
-	tail []byte // appended once to the next plaintext request (see INJ)
-	c       net.Conn
-	br      *bufio.Reader // plaintext view (decrypting when secured)
-	secured bool
-	wkey    []byte // controller -> accessory ("Control-Write-Encryption-Key")
-	rkey    []byte
-	wctr    uint64
-	rctr    uint64
-	raw     *bufio.Reader
-	events  []string
-	dead    bool
+	tail      []byte // appended once to the next plaintext request (see INJ)
+	bareLF    bool   // header lines of plaintext requests end with "\n" instead of "\r\n" (net/http accepts both)
+	teBoth    bool   // the next plaintext request is sent chunked AND with a Content-Length that also covers cc.tail (see INJ)
+	c         net.Conn
+	br        *bufio.Reader // plaintext view (decrypting when secured)
+	secured   bool
+	wkey      []byte // controller -> accessory ("Control-Write-Encryption-Key")
+	rkey      []byte
+	wctr      uint64
+	rctr      uint64
+	raw       *bufio.Reader
+	events    []string
+	dead      bool
 	frameSize int
 	writeSeg  int
 	readDelay time.Duration // a slow reader: wait this long after sending a request before reading the answer
@@ -329,7 +331,20 @@ func (cc *ctlConn) request(method, path, ctype string, body []byte) (*httpResp, 
 		fmt.Fprintf(&b, "Content-Type: %s\r\nContent-Length: %d\r\n", ctype, len(body))
 	}
 	b.WriteString("\r\n")
+	if cc.bareLF && !cc.secured {
+		h := strings.Replace(b.String(), "\r\n", "\n", -1)
+		b.Reset()
+		b.WriteString(h)
+	}
 	b.Write(body)
+	if cc.teBoth && !cc.secured && body != nil {
+		// the same request re-framed by somebody on the path: chunked transfer encoding (which net/http goes by) and a
+		// Content-Length (which it ignores then) that reaches to the end of what is put behind the request
+		chunked := fmt.Sprintf("%x\r\n%s\r\n0\r\n\r\n", len(body), body)
+		b.Reset()
+		fmt.Fprintf(&b, "%s %s HTTP/1.1\r\nHost: hc.local\r\nContent-Type: %s\r\nTransfer-Encoding: chunked\r\nContent-Length: %d\r\n\r\n%s", method, path, ctype, len(chunked)+len(cc.tail), chunked)
+		cc.teBoth = false
+	}
 	if cc.tail != nil && !cc.secured {
 		// bytes somebody on the path puts behind this request, in the same segment
 		b.Write(cc.tail)
@@ -434,12 +449,12 @@ const tlvCT = "application/pairing+tlv8"
 
 // ---- pair-setup, message by message ----
 type setupRun struct {
-	cc     *ctlConn
-	srp    *srpClient
-	sesKey []byte // HKDF(K, Pair-Setup-Encrypt-Salt/Info)
-	salt   []byte
-	B      []byte
-	notes  []string // what the controller verified about the accessory's messages
+	cc      *ctlConn
+	srp     *srpClient
+	sesKey  []byte // HKDF(K, Pair-Setup-Encrypt-Salt/Info)
+	salt    []byte
+	B       []byte
+	notes   []string // what the controller verified about the accessory's messages
 	accName string
 	accLTPK []byte
 	sent    [][]byte // raw request bodies of this exchange, in order
@@ -546,16 +561,16 @@ func (s *setupRun) m5(key []byte, K []byte, id *identity, signer ed25519.Private
 
 // ---- pair-verify ----
 type verifyRun struct {
-	cc      *ctlConn
-	priv    [32]byte
+	cc       *ctlConn
+	priv     [32]byte
 	keepPriv *[32]byte
-	pub     []byte
-	accPub  []byte
-	shared  []byte
-	sesKey  []byte
-	notes   []string
-	accName string
-	accSig  []byte
+	pub      []byte
+	accPub   []byte
+	shared   []byte
+	sesKey   []byte
+	notes    []string
+	accName  string
+	accSig   []byte
 }
 
 func (v *verifyRun) post(items []tlvItem) (map[byte][]byte, int, error) {
